@@ -327,6 +327,8 @@ where
     let mut used_prio_indices = ExprIdxVec::new();
 
     for (i, &bin_op_idx) in prio_indices.iter().enumerate() {
+        #[cfg(exmex_verif)]
+        crate::verif::point(crate::verif::Site::PartialStep);
         let num_idx = num_inds[i];
         let node_1 = nodes[num_idx].take();
         let node_2 = nodes[num_idx + 1].take();
